@@ -516,6 +516,66 @@ theorem late_agrees_elsewhere (q : List (String × QV)) (md : List (Nat × Nat))
     (addParamsLate q md).map (·.seen) = some p.seen :=
   late_agrees h hr
 
+/-! ### the converse of `addp` (round 8 final): for EVERY query, not only the ones the correspondence run draws -/
+
+/-- **which queries `AddParamsFromQuery` accepts.** For every query: the model accepts iff the pin options decode
+    (`fromQuery`), every add bool that is present decodes, layout and format decode, `cid-version` decodes, and version 0 is
+    not asked for by name together with a hash function other than sha2-256.  Chunker and hash words are NOT looked at. -/
+theorem add_accept_iff (q : List (String × QV)) (md : List (Nat × Nat)) :
+    (addParams q md).isSome = true ↔
+      (fromQuery q md).isSome = true ∧ (∀ k ∈ addBoolKeys, (boolParam (getq q k) false).isSome = true) ∧
+      (wordParam (getq q "layout")).isSome = true ∧ (wordParam (getq q "format")).isSome = true ∧
+      (intParam (getq q "cid-version") 0).isSome = true ∧ v0OtherHash q = false := by
+  rw [addParams_isSome]
+  simp only [addParseOk, List.all_eq_true, Bool.and_eq_true, Bool.not_eq_true', and_assoc]
+
+/-- the handler hands nothing to the adder exactly when `url.ParseQuery` or `AddParamsFromQuery` refuses the query -/
+theorem add_refused_iff (q : List (String × QV)) (md : List (Nat × Nat)) :
+    seenOf q md = none ↔ hasGarbled q = true ∨ (addParams q md).isSome = false := by
+  unfold seenOf
+  cases hg : hasGarbled q <;> cases hp : addParams q md <;> simp
+
+/-- **`parseClauses` holds of `seenOf`, for every query** (until now validated by the `addp` correspondence only): a
+    well-formed query is turned into `AddParams` carrying exactly its add options; one with an undecodable pin option, add
+    bool, layout, format or cid-version, with a malformed escape anywhere, or with version 0 named next to another hash
+    function is refused; an undecodable chunker / hash word is left to the adder (K24's subject, no clause). -/
+theorem add_parse_clauses_hold (q : List (String × QV)) (md : List (Nat × Nat)) :
+    (parseClauses q md (seenOf q md)).all (·.2) = true :=
+  parseClauses_seenOf q md
+
+/-- the Prop-level reading: with chunker and hash words that decode, "well-formed" and "accepted" coincide -/
+theorem add_wellformed_iff_accepted (q : List (String × QV)) (md : List (Nat × Nat))
+    (hc : (lateWord (getq q "chunker") "").isSome = true) (hh : (lateWord (getq q "hash") "").isSome = true) :
+    addQueryOk q md = true ↔ ∃ p, hasGarbled q = false ∧ addParams q md = some p ∧ seenOf q md = some p.seen ∧
+      seenExact q p.seen = true := by
+  rw [addQueryOk_eq q md hc hh]
+  constructor
+  · intro h
+    obtain ⟨s, hs⟩ := Option.isSome_iff_exists.mp h
+    obtain ⟨p, hp, rfl⟩ := seenOf_some hs
+    refine ⟨p, ?_, hp, hs, seenExact_of_addParams hp⟩
+    cases hg : hasGarbled q with
+    | false => rfl
+    | true => simp [seenOf, hg] at hs
+  · rintro ⟨p, _, _, hs, _⟩; simp [hs]
+
+def qAddpOk : List (String × QV) :=
+  [("hash", .valid (.str "sha3-512")), ("raw-leaves", .valid (.bool false)), ("layout", .valid (.str "trickle")), ("name", .empty)]
+def qAddpBad : List (String × QV) := [("shard", .invalid), ("chunker", .valid (.str "size-10"))]
+example : (addParams qAddpOk []).isSome = true ∧ addQueryOk qAddpOk [] = true := by decide
+example : seenOf qAddpBad [] = none ∧ addQueryOk qAddpBad [] = false ∧
+    parseClauses qAddpBad [] (seenOf qAddpBad []) = [("fail_closed", true)] := by decide
+example : v0OtherHash [("hash", .invalid), ("cid-version", .valid (.int 0))] = true := by decide
+
+/-- **the refuted alternative** (a lenient `parseBoolParam` that falls back to the default on an undecodable value):
+    whatever `AddParams` it hands on for `?shard=<not a bool>`, the `fail_closed` clause fails -/
+theorem lenient_bool_refuted (s : AddSeen) : (parseClauses qAddpBad [] (some s)).all (·.2) = false := by
+  have h : parseClauses qAddpBad [] (some s) = [("fail_closed", false)] := by
+    have h1 : addQueryOk qAddpBad [] = false := by decide
+    have h2 : ((lateWord (getq qAddpBad "chunker") "").isNone || (lateWord (getq qAddpBad "hash") "").isNone) = false := by decide
+    simp [parseClauses, h1, h2]
+  rw [h]; rfl
+
 /-! ### the full statement (server side) now holds of the model -/
 
 /-- the property of the server request path with no deviation excluded -/
